@@ -44,9 +44,20 @@ IS_BYTE_RANGE_VALID = Spec(
 )
 
 
+RANGE_FOR_LENGTH = Spec(
+    module="datastructures/range.py",
+    qualname="Range.range_for_length",
+    name="range_for_length",
+    params=[("self.units", "Str"), ("self.ranges", "List (Int × Option Int)"), ("length", "Option Int")],
+    result="Option (Int × Int)",
+    raises=True,  # self.ranges[0] raises IndexError for an empty list: proved impossible
+    calls={"http.is_byte_range_valid": Fn("is_byte_range_valid", [Opt(INT), Opt(INT), Opt(INT)], BOOL)},
+)
+
+
 @generator("PyFns_Range")
 def gen_range():
-    return emit("Range", [IS_BYTE_RANGE_VALID])
+    return emit("Range", [IS_BYTE_RANGE_VALID, RANGE_FOR_LENGTH])
 
 
 # --------------------------------------------------------------------------
